@@ -73,7 +73,7 @@ CLAIMED["C04"] = dict(
     note="Recursive types are enumerated to depth 3 (deeper than every pattern used). Alias patterns only with irrefutable members (the checker rejects others by design).",
     technique="bounded-exhaustive enumeration of pattern matrices with a brute-force value-enumeration oracle",
 )
-FMT = "sources = mini corpus + 43 formatter minis + grammar pairs (every production, parenthesised, in every one-hole context) + a stride of the generated programs of both universes + repository sources (size-limited per tier); deviations at every token gap (whitespace kinds, one parenthesised atom, one comment of 6 kinds); all 336 directive combinations on undeviated minis and 6 key configurations elsewhere (the 3 wide ones only for sources above 1500 bytes); each formatter call on the real PrettyFormatter under catch_unwind in a worker with a 20 s watchdog"
+FMT = "sources = mini corpus + 43 formatter minis + grammar pairs (every production, parenthesised, in every one-hole context) + a stride of the generated programs of both universes + repository sources (size-limited per tier); deviations at every token gap (whitespace kinds, one parenthesised atom, one comment of 6 kinds); all 336 directive combinations on undeviated minis and 6 key configurations elsewhere (the 3 wide ones only for sources above 1500 bytes); each formatter call on the real PrettyFormatter under catch_unwind in a worker with a 120 s watchdog per case"
 CLAIMED["C12"] = dict(
     category="exploration",
     text="Formatting is total and meaning-preserving: " + FMT + "; oracle: no unwind or hang, the output parses, and the desugared structure (bitter arena printed without ids/spans) of output and input are equal.",
